@@ -182,7 +182,7 @@ ADDED = {
     'C10': ' Optional short-form inputs bind to the task, ambiguous names are refused by force. Chains are built twice from the same config objects; a config may exclude a class that only other configs declare. Run arguments of dependants are resolved by the same rule (unique / less-nested -> that task\'s value, ambiguous -> the request fails); task names may start with an underscore.',
     'C11': ' Mapping-style global_vars may define names that are not identifiers; strings in reserved config fields (human_readable_data_name) are checked too.',
     'C12': ' Path-typed parameters set in configs (with and without placeholders) are part of the generated pipelines; a value-level family compares real one-task chains with the frozen scheme over mappings keyed by numbers, and factory-made classes with equal qualified names.',
-    'C13': ' One family uses the parts of ONE multi-config file as members, in parameter mode and in name mode; closures are asked by task object in every member; force also by short names; some task classes define __len__.',
+    'C13': ' One family uses the parts of ONE multi-config file as members, in parameter mode and in name mode; closures are asked by task object in every member; force also by short names; some task classes define __len__. MultiChain.force also gets a single task as a bare name.',
     'C14': ' Computers whose parameters all have defaults; two cache objects over one directory. A fifth of the sequences run with warnings turned into errors; pairs of long equal-length keys with a long common prefix. A twelfth of the cases replays its sequences in a child interpreter started with the C locale; keys include hex digests (and their pieces) of other keys in use. Damage also includes an entry reduced to its key: well-formed JSON recording the right key without a value member.',
     'C15': ' All pairs are also enumerated over a damaged initial entry; forced writers of arrays over 16 MiB are interleaved statement by statement with readers. A further family runs the callers as independently exec()ed interpreters with different PYTHONHASHSEEDs (gates over inherited pipes); try-lock calls of the cache code '
            'get real try-lock semantics under the scheduler.',
